@@ -131,7 +131,7 @@ def to_form(trajs, form, rng):
         macro = [np.array(t, dtype=np.int64) for t in trajs]
         occ = sorted({x for t in trajs for x in t})
         rank = {x: k for k, x in enumerate(occ)}
-        micro = [np.array([2 * rank[x] + (i % 2) for i, x in enumerate(t)], dtype=np.int64) for t in trajs]
+        micro = [np.array([2 * rank[x] + (1 if (i * 7919 + 3 * rank[x]) % 13 < 6 else 0) for i, x in enumerate(t)], dtype=np.int64) for t in trajs]
         return mh.LumpedStateTraj(macro, micro)
     return as_arrays(trajs, rng)
 
